@@ -335,17 +335,32 @@ def subdiff_dist(desc, w, grad):
 
 
 def prox_scalar(desc, x, s, j=0):
-    """A global minimiser of 0.5 (u-x)^2 + s pen_j(u) and the attained value (scalar penalties)."""
+    """Global minimisers of 0.5 (u-x)^2 + s pen_j(u) (scalar penalties) and the attained value.
+
+    Piecewise-quadratic tables: exact candidates. Others (L0_5, L2_3, LogSum): the minimiser lies
+    between 0 and x; dense grid + two refinements (used only as a float oracle)."""
     k = desc["kind"]
     if k in PIECEWISE:
-        us, m = tab_prox_set(table(desc, j), float(x), float(s))
-        return us, m
-    # non piecewise: dense 1-d search around stationary points (used by C07 dominance only)
-    f = lambda u: 0.5 * (u - x) ** 2 + s * value(desc, np.array([u]))
-    grid = np.linspace(-abs(x) - 1e-9, abs(x) + 1e-9, 200001)
-    vals = 0.5 * (grid - x) ** 2 + s * np.array([value(desc, np.array([u])) for u in grid[:1]])[0] * 0
-    u = min([0.0, float(x)] + list(grid[::2000]), key=f)
-    return [u], f(u)
+        return tab_prox_set(table(desc, j), float(x), float(s))
+    x = float(x)
+
+    def f(u):
+        return 0.5 * (u - x) ** 2 + s * value(desc, np.array([u]))
+    lo, hi = min(0.0, x), max(0.0, x)
+    best, fb = 0.0, f(0.0)
+    width = hi - lo
+    for _ in range(4):
+        if width <= 0:
+            break
+        g = np.linspace(lo, hi, 2001)
+        vals = 0.5 * (g - x) ** 2 + s * np.array([value(desc, np.array([u])) for u in g])
+        i0 = int(np.argmin(vals))
+        if vals[i0] < fb:
+            best, fb = float(g[i0]), float(vals[i0])
+        step = (hi - lo) / 2000
+        lo, hi = max(min(0.0, x), best - 2 * step), min(max(0.0, x), best + 2 * step)
+        width = hi - lo
+    return [best], fb
 
 
 def prox_block(desc, x, s, g=0):
